@@ -684,6 +684,8 @@ impl Parser {
         self.state = EngineState::Default;
         buf.reset_terminal();
         caret.reset();
+        // the screen content (and its scrollback) is kept: home is the first visible line, not row 0
+        buf.terminal_state.limit_caret_pos(buf, caret);
     }
 
     /// Sequence: `CSI Ps1 ; Ps2 * r`</p>
